@@ -56,11 +56,13 @@ theorem C02_wire_plain (order : List Proto.CfgField) (m : EMeta)
     deliverPlain order m = .ok (dropEmpty m, true) ∧ WireFaithful m (dropEmpty m) :=
   ⟨deliverPlain_ok order m h ho, WireFaithful.of_dropEmpty m⟩
 
-/-- compressed encoding, any lossless blob codec: the same groups in some order -/
+/-- compressed encoding, any lossless blob codec: the same groups in some order.  The proxy compacts
+the range lists of the decoded blob (/repo 23e5d8f); `hcmp` says they already are in `compact`
+normal form, which is what the broker serves (`SlotInv`) -/
 theorem C02_wire_compressed (c : Codec) (m : EMeta) (hc : m.compress = true)
-    (he : m.epoch ≤ u64Max) (hr : ReprData (toProto m).data) :
+    (he : m.epoch ≤ u64Max) (hr : ReprData (toProto m).data) (hcmp : (toProto m).compacted = toProto m) :
     ∃ m', deliverCompressed c.enc c.dec m = .ok (m', true) ∧ WireFaithful m m' :=
-  deliverCompressed_faithful c m hc he hr
+  deliverCompressed_faithful c m hc he hr hcmp
 
 /-! ## installation -/
 
@@ -418,6 +420,9 @@ example : ¬ Reach .finalSwitch false .preCheck := fun h => by
 /-- the wire hypotheses are satisfiable: the meta generated for proxy `h1:1` of the example is
 well-formed in C17's sense after dropping slot-less entries -/
 example : WfMeta (toProto (dropEmpty (encodeFor false (proxyOfView "h1:1" exView)))) := by decide
+/-- … and its range lists are fixed points of the compaction the compressed path applies -/
+example : (toProto (encodeFor true (proxyOfView "h1:1" exView))).compacted = toProto (encodeFor true (proxyOfView "h1:1" exView)) := by
+  decide
 
 
 end Um.C02
